@@ -207,3 +207,7 @@ import props_c18
 import props_c19
 props_c18.register(_sys.modules[__name__])
 props_c19.register(_sys.modules[__name__])
+import props_c06
+props_c06.register(_sys.modules[__name__])
+import props_c08
+props_c08.register(_sys.modules[__name__])
